@@ -75,6 +75,7 @@ type Outcome struct {
 	Calls      int
 	FirstBad   int
 	AfterBad   int
+	AtFail     int    // bytes accepted until (and including) the first failed call
 	Site       string // site kind of the first failed write
 	Feature    string // "" = the property holds for this run
 	What       string
@@ -106,6 +107,7 @@ func (u *Unit) run(p Plan) *Outcome {
 	if failed {
 		before = w.accepted[:w.atFail]
 	}
+	o.AtFail = len(before)
 	isPrefix := bytes.HasPrefix(u.ffOut, before)
 	o.ErrDropped = failed && (w.afterBad > 0 || err == nil)
 	switch {
@@ -171,6 +173,7 @@ type ReplayCase struct {
 		WriteCalls    int    `json:"writeCalls"`
 		FirstFailed   int    `json:"firstFailedCall"`
 		CallsAfterBad int    `json:"callsAfterFailure"`
+		UntilFailure  int    `json:"bytesAcceptedUntilFailure"`
 	} `json:"observed"`
 	Expected string        `json:"expected"`
 	Prog     *core.Program `json:"prog,omitempty"`
@@ -190,7 +193,8 @@ func (u *Unit) replay(o *Outcome) *ReplayCase {
 	rc.Observed.WriteCalls = o.Calls
 	rc.Observed.FirstFailed = o.FirstBad
 	rc.Observed.CallsAfterBad = o.AfterBad
-	rc.Expected = "a non-nil error; accepted bytes a prefix of faultFree.out"
+	rc.Observed.UntilFailure = o.AtFail
+	rc.Expected = "a non-nil error; the bytes accepted until the writer failed are a prefix of faultFree.out; nil only if all of faultFree.out was accepted"
 	return rc
 }
 
